@@ -320,6 +320,8 @@ def rnd_class(rng, kind):
     layers = []
     for j in range(nl):
         base_most = j == nl - 1
+        # (the base-most layer always has a constructor of its own: constructions are observed through the classes' own
+        #  __init__; `class D(PoolDecorator): pass` is therefore NOT generated - a stated limit, see seeded change C04_v2)
         has_init = base_most or rng.random() < 0.5
         layers.append({"service": rng.random() < 0.3, "init": rnd_sig(rng, kind) if has_init else None})
     if rng.random() < 0.5:          # most classes: not wrapped at all, so that the exact check is exercised
@@ -335,7 +337,10 @@ def spec_init_sig(sp):
     for layer in sp["layers"]:
         if layer["init"] is not None:
             return layer["init"]
-    return None
+    # no constructor of its own: the interface class's (Controller / PoolDecorator take the target, Pool nothing)
+    if sp.get("kind") in ("C", "D"):
+        return {"po": [], "pk": [["target", False]], "va": None, "ko": [], "vk": None}
+    return {"po": [], "pk": [], "va": None, "ko": [], "vk": None}
 
 
 def rnd_args(rng, s, with_target, atoms, mode):
